@@ -155,6 +155,14 @@ mut("c09-single-quote-closes-double", "C09", "C09.R1", (EP, "State::ValueWithSin
 mut("c01-empty-name-accepted-again", "C01", "C01", (EP, "if last_state == State::ParseError || pairs.is_empty() {", "if last_state == State::ParseError && !pairs.is_empty() {"))
 mut("c09-tab-is-separator-in-name-only", "C09", "C09.R1", (EP, "State::Name(start) => match current_char {\n                                ' ' | '\\n' => {", "State::Name(start) => match current_char {\n                                ' ' | '\\n' | '*' => {"))
 
+# ---------------------------------------------------------------- C10
+mut("c10-hoisted-children-dropped", "C10", "C10.R1", (PA, "                            let mut parts = vec![ContentPart::Text(Text { token: t })];\n                            parts.extend(children);\n\n                            State::Hoisted((parts, end_token, end_el))", "                            let parts = vec![ContentPart::Text(Text { token: t })];\n\n                            State::Hoisted((parts, end_token, end_el))"))
+mut("c10-unclosed-children-dropped", "C10", "C10.R1", (PA, "                        let mut parts = vec![ContentPart::Text(Text { token: t })];\n                        parts.extend(children);\n\n                        State::Content(parts)", "                        let parts = vec![ContentPart::Text(Text { token: t })];\n\n                        State::Content(parts)"))
+mut("c10-token-duplicated", "C10", "C10.R1", (PA, "            _ => State::Content(vec![ContentPart::Text(Text { token: t })]),", "            _ => State::Content(vec![\n                ContentPart::Text(Text { token: t }),\n                ContentPart::Text(Text { token: t }),\n            ]),"))
+mut("c10-hoisted-parts-not-spliced", "C10", "C10.R1", (PA, "            State::Hoisted((parsed, t, el)) => {\n                parts.extend(parsed);", "            State::Hoisted((parsed, t, el)) => {\n                let _ = parsed;"))
+mut("c10-closer-prefix-match", "C10", "C10.R2", (PA, ".any(|parent_el| parent_el.name == pair_name)", ".any(|parent_el| parent_el.name.starts_with(pair_name))"))
+mut("c10-parse-starts-at-one", "C10", "C10.R1", (PA, "    tree(tokens, 0, &mut content_parts, vec![]);", "    tree(tokens, 1, &mut content_parts, vec![]);"))
+
 # ---------------------------------------------------------------- benign variants (every rule silent)
 benign("b-c05-single-expression", (TL, "if self.current_time < expires.unwrap() {\n            return false;\n        }\n\n        true", "self.current_time >= expires.unwrap()"))
 benign("b-c05-format-shorthand", (TL, 'parse_from_str(&expires_str, "%Y-%m-%d %H:%M:%S %z")', 'parse_from_str(&expires_str, "%F %T %z")'))
